@@ -168,7 +168,9 @@ def make_graph(topo, tidx, variant, nsrc):
     # Network(print_timing=...) takes a separate code path in response()/sensitivity(): off for v0, otherwise rotated over
     # {True, a threshold that never prints, off}; for nested networks the inner one follows every other time
     timing = False if variant == 0 else [True, 1e9, False][(tidx + variant) % 3]
-    return dict(nsrc=nsrc, mods=mods, nest=nest, lens=lens, quad=quad, timing=timing, timing_inner=bool((tidx // 3) % 2))
+    # networks built in one go (v0 and every other variant) or step by step with Network.append
+    incr = variant > 0 and (tidx + variant) % 2 == 0
+    return dict(nsrc=nsrc, mods=mods, nest=nest, lens=lens, quad=quad, timing=timing, timing_inner=bool((tidx // 3) % 2), incr=incr)
 
 
 def _graphs(tier):
@@ -475,12 +477,25 @@ def build_network(g, srcvals, coefs):
         sigs.extend(outs)
     # the timing option selects a different code path in Network.response/sensitivity: rotate it deterministically
     timing = g.get("timing", False)
+    incr = g.get("incr", False)
     if g["nest"] is None:
-        net = pym.Network(*mods, print_timing=timing)
+        if incr and len(mods) >= 2:
+            # built step by step with the public Network.append
+            net = pym.Network(mods[0], print_timing=timing)
+            net.append(*mods[1:])
+        else:
+            net = pym.Network(*mods, print_timing=timing)
     else:
         i, j = g["nest"]
-        inner = pym.Network(*mods[i:j], print_timing=(timing if g.get("timing_inner", True) else False))
-        net = pym.Network(*(mods[:i] + [inner] + mods[j:]), print_timing=timing)
+        tin = (timing if g.get("timing_inner", True) else False)
+        if incr and j - i >= 2:
+            # the inner network receives its later modules AFTER it has been placed in the outer network
+            inner = pym.Network(mods[i], print_timing=tin)
+            net = pym.Network(*(mods[:i] + [inner] + mods[j:]), print_timing=timing)
+            inner.append(*mods[i + 1:j])
+        else:
+            inner = pym.Network(*mods[i:j], print_timing=tin)
+            net = pym.Network(*(mods[:i] + [inner] + mods[j:]), print_timing=timing)
     return net, sigs, mods
 
 
@@ -656,8 +671,9 @@ def run_graph(V, P, g, gi, only_set=None):
                     ck.exact(tag + "src%d.sens.shape" % i, False, "total-derivative", detail="shape %s" % (np.shape(got),))
                 else:
                     ck.values(tag + "src%d.sens" % i, got, exp, "total-derivative")
-            if si == 0:
-                obs["g%d.src%d.sens" % (gi, i)] = got
+            if si == 0:     # (a snapshot: the array may legitimately be zeroed in place by a later reset)
+                obs["g%d.src%d.sens" % (gi, i)] = (np.array(got, dtype=got.dtype).view(type(got)) if isinstance(got, np.ndarray)
+                                                   else got)
         # sinks keep their seed
         for s in sset:
             if s in sinks and sigs[s].sensitivity is not None:
